@@ -6,6 +6,22 @@ props = [json.loads(l) for l in open(os.path.join(HERE, "properties.jsonl"))]
 hook_commits = ["9fea0ac"]
 
 CHECKS = {
+ "C10": dict(engine="vdrv+cli", design="3/C10",
+   technique="runtime monitoring: reference-model oracle (Python interpreter of the documented .if condition grammar and of the .if/.ifdef/.ifndef/.else/.endif block structure) predicting the exact marker-byte sequence of marker-instrumented programs assembled by the ASan/UBSan library in the in-process driver; malformed conditionals and a sample of valid programs run through the real CLI for exit status and bin output",
+   text="Exploration: 29244 enumerated condition expressions (up to 3 operators over defined(), !, ==, <, >, <=, >=, &&, ||, parentheses, numbers, defines, labels) and 4116 enumerated nestings to depth 3 with untaken bodies holding labels, defines, macro definitions, junk and directive names in comments/strings, plus seeded random conditions and trees to depth 10; trailing .ifdef probes detect symbol/define/macro leakage from skipped regions; 81 malformed cases must not exit 0.",
+   note="20 known findings (S5, S21, S23, S31 and three newly characterised evaluator/skip-loop defects) with instance catalogues over the enumerated domain. Unparenthesised comparison chains, negative numbers, arithmetic, non-numeric defines are outside the documented grammar and not generated; `!!x` excluded."),
+ "C12": dict(engine="cli", design="3/C12",
+   technique="runtime monitoring: consistency monitor over the real CLI's (exit status, diagnostic lines, output file) triple under single-point source corruption with a stale output file planted before each run, in the ASan/UBSan build",
+   text="Exploration: valid programs in 6 shapes (plain, rich, in-macro, in-include, in-conditional, in-repeat) x 18 certainly-erroneous corruption classes + 2 operand-garbling classes x 23 insertion slots x -type hex/bin/elf; rules: exit 0 with an Error diagnostic, exit 0 without output, failure leaving (stale) output, failure without diagnostic, signal/sanitizer report, certainly-erroneous input accepted.",
+   note="46 known findings sharing about four root causes (result of the nested assemble() in parse_ifdef_ignore discarded; duplicate .define / `.if (` diagnosed but exit 0; unterminated .if / stray .endif accepted silently; avr8/propeller2 operand-array overruns). CPU is not part of the key. ELF well-formedness is left to C03."),
+ "C13": dict(engine="cli+vdrv", design="3/C13",
+   technique="runtime monitoring: differential runs of the real CLI across repetition, reporting options (-l, -q, -dump_symbols, -dump_macros), output name/directory, output type (decoded images), ASan malloc_fill_byte 0x00 vs 0xA5, and in-process history (the in-process driver assembling unrelated programs of other CPUs first); all images must be identical",
+   text="Exploration: 250 (quick) / 4000 (thorough) generated programs x 15 configurations; hex files compared byte-for-byte, srec/bin/elf as decoded images, in-process images after 0..3 unrelated assemblies and on immediate repetition compared with the fresh-process image.",
+   note="Compiler-level initialisation regimes (-ftrivial-auto-var-init) and the interactive `asm` command of naken_util (which cannot assemble at all, see C19 finding S22) are not exercised. ELF comparisons skipped where C03's ELF findings interfere."),
+ "C19": dict(engine="cli", design="3/C19",
+   technique="runtime monitoring: shadow-memory monitor over scripted naken_util sessions (ASan/UBSan binary): a Python reference interpreter applies the same write/print/disasm/set commands to a {byte address -> value} map under the documented addressing rules and every printed row is compared",
+   text="Exploration: 400 (quick) / 20000 (thorough) sessions of 6..40 commands on 12 CPUs covering bytes-per-address 1/2/4, both byte orders; decimal/0x/..h spellings, a-b ranges, addresses at 0, 64 KiB page ends and crossings, 24-bit boundaries, the 2^31 crossing and 0xffff0000; every write followed by a print of its neighbourhood and a final sweep over all touched regions (a write must not change an address it did not name); first disasm row and the simulator's current-instruction row after set pc + step compared with the shadow; sessions starting from naken_asm-written hex/bin files with -address/-set_pc.",
+   note="Known findings: interactive `asm` blocks never assemble (S22); `..h` number detection scans the rest of the line. Hex >= 2^31 (signed accumulation, UBSan), -address >= 2^31 (rejected by the tool), 68000 disasm (non-terminating, C08 finding) and symbol-name arguments are excluded."),
  "C11": dict(engine="vdrv+cli", design="3/C11",
    technique="runtime monitoring: reference-model oracle (Python scope resolver: one global table plus one per .scope/.func, local first then global) compared with the words the real assembler emits for `.dc32 name`, the ELF .symtab of the real CLI and the listing symbol table, in the ASan/UBSan build",
    text="Exploration: seeded programs with 1..5000 labels (up to 6 symbol pools, entries ending at 32767/32768/32769), 0..200 .scope/.func blocks, shadowed names, forward/backward references inside and outside scopes, .set chains and .export; every reference's emitted value is compared with the resolver; duplicate definitions and references to foreign-scope/undefined names must be rejected; exported symbols must appear in .symtab with their addresses.",
